@@ -95,6 +95,16 @@ def result_lanes(ex, k, f, ret):
     raise Unsupported('ret kind')
 
 
+class MemView:
+    """result of a wrapper that takes pointers: .val = return value (shaped as result_lanes), .byte(arg, off) = final memory byte"""
+
+    def __init__(s, val, byte_fn):
+        s.val = val; s._byte = byte_fn
+
+    def byte(s, arg, off):
+        return s._byte(arg, off)
+
+
 class Run:
     """result of symbolically executing one wrapper"""
 
@@ -112,6 +122,11 @@ class Run:
         if s.st.dead:
             raise Unsupported('all paths dead: %s' % s.st.outcome)
         s.res = result_lanes(s.ex, k, f, s.st.ret)
+        ptrs = {d['name']: d for d in s.desc if d['kind'] == 'ptr'}
+        if ptrs:
+            final = s.st.ext
+            s.res = MemView(s.res, lambda arg, off: z3.Select(final, ptrs[arg]['base'] + z3.BitVecVal(off, 64)))
+            s.mem0 = lambda arg, off: z3.Select(s.ex.ext0, ptrs[arg]['base'] + z3.BitVecVal(off, 64))
 
     def inp(s, i): return s.desc[i]
 
@@ -177,6 +192,29 @@ class Decider:
         s.queries = 0; s.solver_s = 0.0; s.by_simplifier = 0; s.by_search = 0; s.cvc5_used = 0
         s.dedup = 0; s.samples = []
         s.cache = {}
+        s._ncache = {}
+
+    def slice(s, assumptions, goal):
+        """cone of influence: keep the assumptions that (transitively) share a symbol with the negated goal.  Dropping an
+        assumption only weakens the premise, so 'unsat' stays valid; the dropped ones talk about disjoint symbols and are
+        satisfiable on their own (checked once per run by the vacuity witness), so 'sat' models extend to them."""
+        if len(assumptions) < 8: return assumptions
+        names = [s._names(a) for a in assumptions]
+        live = set(consts_of(goal)); keep = [False] * len(assumptions)
+        changed = True
+        while changed:
+            changed = False
+            for i, nm in enumerate(names):
+                if not keep[i] and (nm & live):
+                    keep[i] = True; live |= nm; changed = True
+        return [a for a, k_ in zip(assumptions, keep) if k_]
+
+    def _names(s, a):
+        i = a.get_id()
+        r = s._ncache.get(i)
+        if r is None:
+            r = frozenset(consts_of(a)); s._ncache[i] = (r, a); return r
+        return r[0]
 
     def check(s, assumptions, goal, rename=None, label=''):
         """is (assumptions => goal) valid?  -> ('unsat'|'sat'|'unknown', model|None)"""
@@ -186,7 +224,9 @@ class Decider:
         if z3.is_false(g):
             s.queries += 1; s.by_simplifier += 1
             return 'unsat', None
-        fml = z3.And(*(list(assumptions) + [g])) if assumptions else g
+        full = list(assumptions)
+        assumptions = s.slice(full, g)
+        fml = z3.And(*(assumptions + [g])) if assumptions else g
         key = None
         if rename is not None:
             key = canon_key(fml, rename)
@@ -201,12 +241,19 @@ class Decider:
         sol = z3.Solver()
         sol.set('timeout', int(s.timeout_s * 1000))
         sol.add(fml)
-        raw = z3.Solver(); raw.add(*(list(assumptions) + [neg]))
+        raw = z3.Solver(); raw.add(*(assumptions + [neg]))
         r = sol.check()
         dt = time.time() - t0; s.solver_s += dt
         res = None
         if r == z3.unsat: res = ('unsat', None)
-        elif r == z3.sat: res = ('sat', sol.model())
+        elif r == z3.sat:
+            if len(assumptions) != len(full):
+                # complete the model over the assumptions that were sliced away (needed for a faithful native replay)
+                sol2 = z3.Solver(); sol2.set('timeout', int(s.timeout_s * 1000)); sol2.add(*(full + [g]))
+                r2 = sol2.check()
+                res = ('sat', sol2.model()) if r2 == z3.sat else (('unsat', None) if r2 == z3.unsat else ('sat', sol.model()))
+            else:
+                res = ('sat', sol.model())
         else:
             if s.use_cvc5:
                 rr = cvc5_check(raw, s.timeout_s)
@@ -261,8 +308,8 @@ def cvc5_check(sol, timeout_s):
         os.unlink(path)
 
 
-def model_inputs(model, desc):
-    """concrete input values from a model -> {argname: list of ints | int}"""
+def model_inputs(model, desc, ex=None):
+    """concrete input values from a model -> {argname: list of ints | int | dict(base, bytes{off: byte}) for pointers}"""
     out = {}
     for d in desc:
         if d['kind'] == 'v':
@@ -272,5 +319,20 @@ def model_inputs(model, desc):
         elif d['kind'] in ('s', 'z', 'T'):
             out[d['name']] = model.eval(d['sym'], model_completion=True).as_long()
         elif d['kind'] == 'ptr':
-            out[d['name']] = model.eval(d['base'], model_completion=True).as_long()
+            base = model.eval(d['base'], model_completion=True).as_long()
+            by = {}
+            if ex is not None:
+                rid = d['ptr'].rid
+                for (pc, addr, nb, al, rw, arid, off) in ex.accesses:
+                    if arid != rid: continue
+                    a = model.eval(addr, model_completion=True).as_long()
+                    o = (a - base) & ((1 << 64) - 1)
+                    if o >= 1 << 63: o -= 1 << 64
+                    if abs(o) > 1 << 20: continue
+                    for kk in range(nb):
+                        by[o + kk] = model.eval(z3.Select(ex.ext0, z3.BitVecVal((a + kk) & ((1 << 64) - 1), 64)), model_completion=True).as_long()
+                for o in d.get('extent', ()):   # bytes the harness wants defined even if not accessed
+                    if o not in by:
+                        by[o] = model.eval(z3.Select(ex.ext0, z3.BitVecVal((base + o) & ((1 << 64) - 1), 64)), model_completion=True).as_long()
+            out[d['name']] = dict(base=base, bytes=by)
     return out
